@@ -464,17 +464,22 @@ impl PartialEq for Epoch {
 
 impl PartialOrd for Epoch {
     fn partial_cmp(&self, other: &Self) -> Option<Ordering> {
-        Some(
-            self.duration
-                .cmp(&other.to_time_scale(self.time_scale).duration),
-        )
+        Some(self.cmp(other))
     }
 }
 
 impl Ord for Epoch {
     fn cmp(&self, other: &Self) -> Ordering {
-        self.duration
-            .cmp(&other.to_time_scale(self.time_scale).duration)
+        if self.time_scale.uses_leap_seconds() && !other.time_scale.uses_leap_seconds() {
+            // Like the equality check, compare in the time scale that does NOT have leap seconds:
+            // an instant during a leap second has no UTC representation of its own.
+            self.to_time_scale(other.time_scale)
+                .duration
+                .cmp(&other.duration)
+        } else {
+            self.duration
+                .cmp(&other.to_time_scale(self.time_scale).duration)
+        }
     }
 }
 
